@@ -2682,8 +2682,6 @@ def remove_redundant_comprehension_casts(source: str) -> str:
             yield node, ast.ListComp(comp.elt, comp.generators)
         if func == "iter" and isinstance(comp, ast.GeneratorExp):
             yield node, comp
-        if func == "iter" and isinstance(comp, ast.ListComp):
-            yield ast.GeneratorExp(comp.elt, comp.generators)
 
     template = ast.Call(
         func=ast.Name(id=core.Wildcard("func", ("list", "set", "iter", "dict"))),
